@@ -235,9 +235,27 @@ class Ctx:
         info["harness_rc"] = rc
         if rc != 0:
             info["error"] = "harness failed"
+            # concrete violations already written before the crash are reported first
+            svp0 = os.path.join(outdir, "specviol.txt")
+            found = False
+            if os.path.exists(svp0):
+                seen0 = set()
+                for l in open(svp0, encoding="utf-8", errors="replace"):
+                    sig, _, det = l.rstrip("\n").partition("\t")
+                    if not sig or sig in seen0:
+                        continue
+                    seen0.add(sig)
+                    kf = self.match_known(sig)
+                    if kf:
+                        self.known_hits.append((sig, kf.get("what", det)))
+                        continue
+                    rp0 = self.write_replay({"leg": name, "seed": self.seed, "signature": sig, "failing_input": det,
+                                             "spec_verdict": "the implementation's observable contradicts the specification"})
+                    self.violations.append((sig, det, rp0, False))
+                    found = True
             rp = self.write_replay({"broken": "correspondence %s: harness exited %d" % (name, rc), "leg": name,
                                     "seed": self.seed, "log": hout[-6000:]})
-            self.violations.append(("correspondence:%s:harness-crash" % name, hout[-800:].replace("\n", " | "), rp, True))
+            self.violations.append(("correspondence:%s:harness-crash" % name, hout[-800:].replace("\n", " | "), rp, not found))
             return info
         try:
             stats = json.load(open(os.path.join(outdir, "stats.json")))
